@@ -479,9 +479,6 @@ func (r *Resolver) resolveOne(ctx context.Context, name, typ string) ([]any, err
 		cache.Remove(key)
 		return nil, err
 	}
-	if len(res) == 0 {
-		ttl = 300
-	}
 	v.expiration = timeNow().Add(time.Second * time.Duration(ttl))
 	v.result = res
 	return res, nil
@@ -511,7 +508,8 @@ func (r *Resolver) resolveOneNoCache(ctx context.Context, name, typ string) ([]a
 		return nil, 0, fmt.Errorf("%s (%s): response code %d", name, typ, rc)
 	}
 	var res []any
-	var ttl uint32
+	// Responses without any answer record carry no TTL; keep them 5 minutes.
+	ttl := uint32(300)
 	want := strings.TrimSuffix(name, ".")
 	for i, a := range result.Answer {
 		// The minimum of all the records; zero means not cacheable.
